@@ -278,6 +278,24 @@ func runC25(r *simrt.Run) {
 	w := newWireWorld(r)
 	ctx := context.Background()
 	n := 6 + r.Draw("cfg", 10)
+	// Order of verifications (one knob per run, own stream so that older tapes keep their meaning;
+	// 0 = as before). In a "genuine first" run every signed object is verified in its genuine form
+	// by its receiver before whatever the transport delivers is verified: a copy with a changed
+	// signed field that still carries the genuine signature (a replayed session claiming other CU,
+	// a stored reply re-served with other data) then arrives at a verifier that has already
+	// accepted the genuine one. In the other runs the receiver sees only what the transport
+	// delivers (a tampered copy is the first and only thing verified under that signature).
+	// The knob is per run and the genuine verification is unconditional in such a run, so that the
+	// first verification under every signature is the genuine one in every execution of the run:
+	// the verdict then cannot depend on what earlier executions in the same OS process (other runs,
+	// shrink re-executions) left behind in process-wide state of the code under test. Violations
+	// found in such a run carry their own signature suffix for the same reason.
+	genuineFirst := r.Draw("order", 2) == 1
+	sfx := ""
+	if genuineFirst {
+		sfx = ":after-genuine-verified"
+	}
+	r.Logf("cfg: steps=%d genuine-verified-first=%v", n, genuineFirst)
 	for i := 0; i < n; i++ {
 		r.Step()
 		pd := w.genPrivateData()
@@ -287,6 +305,20 @@ func runC25(r *simrt.Run) {
 		wireBytes, err := sent.Marshal()
 		if err != nil {
 			panic(err)
+		}
+		if genuineFirst {
+			g := &pairingtypes.RelayRequest{}
+			if err := g.Unmarshal(wireBytes); err != nil {
+				panic(err)
+			}
+			gb, _ := g.Marshal()
+			addr, xerr := sigs.ExtractSignerAddress(*g.RelaySession)
+			ga, _ := g.Marshal()
+			r.Check(bytes.Equal(gb, ga), "verification-mutated-message", "ExtractSignerAddress", "ExtractSignerAddress changed the relay request it checked (marshalled bytes differ)")
+			ok := xerr == nil && addr.Equals(w.consumer.Addr)
+			r.Logf("request %d genuine copy verified first: recovered-consumer=%v", i, ok)
+			r.Check(ok, "signer-not-recovered-for-unchanged-session", "genuine-first", "the genuine relay session (first verification under its signature in this run) does not recover to the consumer's address: %v", xerr)
+			r.Op("request", "genuine_first_ok")
 		}
 		fault := "none"
 		switch r.Draw("fault", 5) {
@@ -325,10 +357,13 @@ func runC25(r *simrt.Run) {
 			sigChanged := !bytes.Equal(sess.Sig, recv.RelaySession.Sig)
 			r.Logf("request %d fault=%s %s: signed-fields-changed=%v sig-changed=%v recovered-consumer=%v", i, fault, kind, changed, sigChanged, recovered)
 			if changed {
-				r.Check(!recovered, "signer-recovered-despite-changed-field", kind, "a relay session whose signed field (%s, fault %s) changed in flight still recovers to the consumer's address\n sent: %s\n recv: %s", kind, fault, canonSession(sess), canonSession(recv.RelaySession))
+				if genuineFirst && !sigChanged {
+					r.Probe("tampered_session_with_genuine_sig_after_genuine_verified")
+				}
+				r.Check(!recovered, "signer-recovered-despite-changed-field", kind+sfx, "a relay session whose signed field (%s, fault %s) changed in flight still recovers to the consumer's address (genuine copy verified before: %v)\n sent: %s\n recv: %s", kind, fault, genuineFirst, canonSession(sess), canonSession(recv.RelaySession))
 				r.Op("request", "changed_rejected")
 			} else if !sigChanged {
-				r.Check(recovered, "signer-not-recovered-for-unchanged-session", kind, "a relay session whose signed fields and signature are unchanged (fault %s %s) does not recover to the consumer's address: %v", fault, kind, xerr)
+				r.Check(recovered, "signer-not-recovered-for-unchanged-session", kind+sfx, "a relay session whose signed fields and signature are unchanged (fault %s %s) does not recover to the consumer's address: %v", fault, kind, xerr)
 				r.Op("request", "ok")
 			}
 		}
@@ -347,6 +382,19 @@ func runC25(r *simrt.Run) {
 			continue
 		}
 		rb, _ := signed.Marshal()
+		if genuineFirst {
+			// the consumer verifies the reply as the provider signed it, against its own request
+			g := &pairingtypes.RelayReply{}
+			if err := g.Unmarshal(rb); err != nil {
+				panic(err)
+			}
+			gReq := cloneRequest(sent)
+			lavaprotocol.UpdateRequestedBlock(gReq.RelayData, g)
+			gerr := lavaprotocol.VerifyRelayReply(ctx, g, gReq, w.provider.Addr.String())
+			r.Logf("reply %d genuine copy verified first: verify=%v", i, gerr == nil)
+			r.Check(gerr == nil, "reply-not-verified-for-unchanged-content", "genuine-first", "the genuine reply (first verification under its signature in this run) does not verify against the genuine request: %v", gerr)
+			r.Op("reply", "genuine_first_ok")
+		}
 		rfault := "none"
 		consumerReq := cloneRequest(sent)
 		switch r.Draw("fault", 8) {
@@ -419,10 +467,17 @@ func runC25(r *simrt.Run) {
 		rsig := bytes.Equal(signed.Sig, got.Sig)
 		r.Logf("reply %d fault=%s: signed-content-same=%v sig-same=%v verify=%v", i, rfault, same, rsig, verr == nil)
 		if !same {
-			r.Check(verr != nil, "reply-verified-despite-changed-content", c25ReplyDiffKind(signed, got, provView.RelayData, consumerReq.RelayData), "a reply whose data/metadata/request data differ from what the provider signed (fault %s) still verifies\n  signed reply: %s\n  got reply:    %s\n  signed request data: %s\n  checked against:     %s", rfault, canonReply(signed), canonReply(got), canonPD(provView.RelayData, false), canonPD(consumerReq.RelayData, false))
+			dk := c25ReplyDiffKind(signed, got, provView.RelayData, consumerReq.RelayData)
+			if dk != "reply-metadata-entries-regrouped" { // (listed known finding of the signed layout: one signature in every kind of run)
+				dk += sfx
+			}
+			if genuineFirst && rsig {
+				r.Probe("tampered_reply_with_genuine_sig_after_genuine_verified")
+			}
+			r.Check(verr != nil, "reply-verified-despite-changed-content", dk, "a reply whose data/metadata/request data differ from what the provider signed (fault %s) still verifies\n  signed reply: %s\n  got reply:    %s\n  signed request data: %s\n  checked against:     %s", rfault, canonReply(signed), canonReply(got), canonPD(provView.RelayData, false), canonPD(consumerReq.RelayData, false))
 			r.Op("reply", "changed_rejected")
 		} else if rsig {
-			r.Check(verr == nil, "reply-not-verified-for-unchanged-content", rfault, "a reply with unchanged data, metadata, request data (fault %s) and signature does not verify: %v", rfault, verr)
+			r.Check(verr == nil, "reply-not-verified-for-unchanged-content", rfault+sfx, "a reply with unchanged data, metadata, request data (fault %s) and signature does not verify: %v", rfault, verr)
 			r.Op("reply", "ok")
 		}
 	}
@@ -657,9 +712,9 @@ func init() {
 	stub := []string{"transport (in-memory, corrupting)", "consumer session / QoS managers (session fields drawn from the tape)", "provider's other request checks (only the content-hash comparison of verifyRelayRequestMetaData is reproduced)"}
 	simrt.Register("C25", &simrt.PropSpec{Fn: runC25,
 		NonTrivial: func(r *simrt.Run) bool { return r.Ops["request:ok"] >= 1 && r.Ops["reply:ok"] >= 1 && r.FaultsFired() >= 2 },
-		Rule:       "a consumer builds and signs relay sessions (real builders, fields from the tape), a provider signs replies; every message crosses a corrupting transport (marshal -> fault -> unmarshal): single-field mutation of each signed and unsigned field, bit flips in the wire bytes, duplication, replies checked against requests differing in one field or only in the salt. The simulation dimension is thin (two parties + corrupting transport); field values are ordinary generated inputs. Non-trivial = at least one clean request and reply verified and >=2 faults fired; distinct = (op,outcome,fault) sequence hash",
+		Rule:       "a consumer builds and signs relay sessions (real builders, fields from the tape), a provider signs replies; every message crosses a corrupting transport (marshal -> fault -> unmarshal): single-field mutation of each signed and unsigned field, bit flips in the wire bytes, duplication, replies checked against requests differing in one field or only in the salt. Verification order is a per-run knob: in half of the runs the receiver first verifies the genuine object (request at the provider, reply at the consumer) and only then what the transport delivers, so that a tampered copy carrying the genuine signature meets a verifier that has already accepted the genuine one; in the other half the delivered (possibly tampered) object is the only thing verified under its signature. The simulation dimension is thin (two parties + corrupting transport); field values are ordinary generated inputs. Non-trivial = at least one clean request and reply verified and >=2 faults fired; distinct = (op,outcome,fault) sequence hash",
 		Real:       real, Stubbed: stub,
-		Assume:     []string{"'signed fields' are the ones the statement lists; the canonical comparison is length-prefixed per field", "the consumer applies UpdateRequestedBlock before verifying, as rpcconsumer_server.go does"}})
+		Assume:     []string{"'signed fields' are the ones the statement lists; the canonical comparison is length-prefixed per field", "the consumer applies UpdateRequestedBlock before verifying, as rpcconsumer_server.go does", "worker processes execute many runs (and shrink re-executions of one run): state the code under test keeps per process is shared between them; in genuine-first runs the first verification under every signature is the genuine one in every execution, which makes their verdicts independent of that history (their violation signatures carry the suffix :after-genuine-verified)"}})
 	simrt.Register("C26", &simrt.PropSpec{Fn: runC26,
 		NonTrivial: func(r *simrt.Run) bool { return r.Ops["pair:ok"]+r.Ops["pair:known_collision"] >= 5 },
 		Rule:       "pairs of relay private data that differ in one hashed field, or by moving 1-2 bytes across the boundary of two adjacent hashed fields (metadata name/value, metadata/extensions, extension/extension, extensions/addon, addon/api interface, api interface/connection type, connection type/url, url/data, data..salt through the fixed-width block fields, splitting one extension or metadata entry in two); the variant travels with the session signed for the original and the provider's content-hash check decides. Thin simulation dimension (replay of a signed session with different private data over the transport); the pairs are ordinary generated inputs. Non-trivial = >=5 differing pairs compared; distinct = (op,outcome,fault) sequence hash",
